@@ -161,6 +161,36 @@ def return_shape(toks, name):
     return good == len(rets) and len(jfs) >= 1
 
 
+def jf_unconditional(toks, name):
+    """in fn <name>: every `if <..>.in_try_block { emit JumpFinally }` sits directly in the function body (or, for
+    return_statement, in the branch that compiled a return value) - NOT under another condition such as the test for an
+    initialiser: a bare `return;` of an initialiser must run the finally clause like every other return"""
+    o, c = fn_body(toks, name)
+    ok = True
+    for j in find_all_seq(toks, ["in_try_block", "{"], o, c):
+        k = j
+        while k > o and toks[k].text != "if":
+            k -= 1
+        # enclosing blocks between the function body and this `if`
+        depth = 0
+        encl = []
+        for q in range(o + 1, k):
+            if toks[q].text == "{":
+                encl.append(q)
+            elif toks[q].text == "}":
+                encl.pop()
+        for q in encl:
+            # what introduces the enclosing block: tokens back to the previous `;`, `{` or `}`
+            b = q - 1
+            while b > o and toks[b].text not in (";", "{", "}"):
+                b -= 1
+            head = texts(toks, b + 1, q)
+            if "Initialiser" in head or (b >= 0 and toks[b].text == "}" and head[:1] == ["else"] and
+                                          "Initialiser" in texts(toks, max(o, b - 40), b)):
+                ok = False
+    return ok
+
+
 def unwind_shape(toks, otoks):
     o, c = fn_body(toks, "unwind_stack")
     t = texts(toks, o, c)
@@ -296,6 +326,7 @@ def gen_tryarms(man):
         raise ValueError("break_statement and continue_statement differ in popping handlers")
     pops_loop = pops_mode == 2
     ret_jf = return_shape(ct, "return_statement") and return_shape(ct, "emit_return")
+    ret_uncond = jf_unconditional(ct, "emit_return") and jf_unconditional(ct, "return_statement")
     he_mode, innermost, unwind_ok, records = unwind_shape(vt, ot)
     t_sets, v_sets, n_sets, err_placed = raise_sites(vt)
     rethrows, resumes = end_finally_shape(vt)
@@ -315,6 +346,7 @@ def gen_tryarms(man):
         ("gen_break_scope_pops_before_jump", b_scope and c_scope),
         ("(* compiler.rs fn return_statement / fn emit_return *)", None),
         ("gen_return_in_try_uses_jump_finally", ret_jf),
+        ("gen_return_jump_finally_for_every_function_kind", ret_uncond),
         ("(* vm.rs fn unwind_stack, object.rs fn has_catch_block / pop_exc_handler / push_exc_handler *)", None),
         ("gen_unwind_he_mode", he_mode),
         ("gen_unwind_pops_innermost", innermost),
